@@ -6,7 +6,9 @@ package main
 //  - relay: an attacker holding two separately keyed sessions forwards the SMP payloads between them;
 //  - deviant messages: an SMP message authenticated by the genuine peer but with one field replaced by
 //    a boundary value / perturbed / miscounted / truncated, duplicated or out of sequence, and user
-//    calls in states that do not expect them; afterwards an honest run must still succeed.
+//    calls in states that do not expect them; afterwards an honest run must still succeed;
+//  - honest runs with a question of the maximal length StartAuthenticate accepts (found by probing), one
+//    or two bytes shorter, and one byte longer (refused).
 
 import (
 	"bytes"
@@ -823,6 +825,158 @@ func (g *gen) smpOutOfSequence(w *world, idx int) {
 	}
 }
 
+// C11 with questions at the edge of what fits into a TLV. The question travels NUL terminated in front of
+// the MPI count and six MPIs of an SMP1Q TLV, whose length field has 16 bits: StartAuthenticate refuses
+// what cannot fit. The longest question it accepts is found by probing (once per harness run; the
+// estimate from the wire format only says where to look first).
+var smpMaxQuestion = -1
+var smpMaxConfirmed = false
+
+var longQuestionPhrases = []string{"what is it? ", "q", "wer bist d\xfc? ", "\x01\xff"}
+
+func longQuestion(phrase string, l int) string {
+	return strings.Repeat(phrase, l/len(phrase)+1)[:l]
+}
+
+// is a question of l bytes accepted by p's StartAuthenticate? (no run in progress on either side; a run
+// that the call starts is delivered and called off again)
+func (n *smpNet) questionAccepted(p *party, phrase string, l int) bool {
+	ts, err := n.w.smpStart(p, longQuestion(phrase, l), []byte("probe"))
+	if err != nil && len(ts) == 0 {
+		return false
+	}
+	n.l.enqueue(p, ts)
+	n.pump(nil)
+	ts, _ = n.w.smpAbort(p)
+	n.l.enqueue(p, ts)
+	n.pump(nil)
+	return true
+}
+
+func (n *smpNet) probeMaxQuestion(p *party, phrase string) int {
+	if smpMaxQuestion >= 0 {
+		return smpMaxQuestion
+	}
+	guess := 0xffff - 1 - 4 - 6*(4+192)
+	if !n.questionAccepted(p, phrase, guess+1) {
+		// one byte more is refused; that this length is accepted shows when the first run starts
+		// (searchMaxQuestion if it is not)
+		smpMaxQuestion, smpMaxConfirmed = guess, false
+		return guess
+	}
+	return n.searchMaxQuestion(p, phrase)
+}
+
+func (n *smpNet) searchMaxQuestion(p *party, phrase string) int {
+	lo, hi := 0, 1<<17 // accepted (no question at all), refused (longer than any TLV)
+	for hi-lo > 1 && !n.w.dead {
+		mid := (lo + hi) / 2
+		if n.questionAccepted(p, phrase, mid) {
+			lo = mid
+		} else {
+			hi = mid
+		}
+	}
+	smpMaxQuestion, smpMaxConfirmed = lo, true
+	return lo
+}
+
+// honest runs whose question is as long as StartAuthenticate lets it be, one or two bytes shorter, or one
+// byte longer (refused: nothing is sent, no run): equal secrets -> success on both sides, different
+// secrets -> failure. The first two scenarios of a harness run use the longest question and equal secrets,
+// one in each version.
+func (g *gen) smpLongQuestion(w *world, idx int, v0 int) {
+	version := 2 + (v0+idx)%2
+	n := g.newSmpNet(w, version)
+	if !n.a.c.IsEncrypted() || !n.b.c.IsEncrypted() {
+		return
+	}
+	ini, res := n.a, n.b
+	if g.r.Intn(2) == 0 {
+		ini, res = n.b, n.a
+	}
+	phrase := longQuestionPhrases[g.r.Intn(len(longQuestionPhrases))]
+	max := n.probeMaxQuestion(ini, phrase)
+	if w.dead {
+		return
+	}
+	// one byte more than the longest: refused, nothing sent, and the call leaves no trace - the run that
+	// follows is the first the peer hears of
+	if idx > 0 {
+		ts, err := n.w.smpStart(ini, longQuestion(phrase, max+1), []byte("too long to ask"))
+		if err == nil || len(ts) > 0 {
+			// (refused when probed: the answer depends on something else than the length; not for C11 to
+			// judge - the run it started is called off)
+			g.dist["smp:long-question:limit-unstable"]++
+			n.l.enqueue(ini, ts)
+			n.pump(nil)
+			ts, _ = n.w.smpAbort(ini)
+			n.l.enqueue(ini, ts)
+			n.pump(nil)
+		}
+	}
+	l, equal := max, true
+	if idx >= 2 {
+		l = max - g.r.Intn(3)
+		equal = g.r.Intn(2) == 0
+	}
+	if !smpMaxConfirmed {
+		l = max
+	}
+	s1, s2 := g.differentSecrets()
+	if equal {
+		s2 = s1
+	}
+	g.dist[fmt.Sprintf("smp:long-question:v%d:max-%d:equal=%v", version, max-l, equal)]++
+	*n.evOf(ini), *n.evOf(res) = nil, nil
+	ts, err := n.w.smpStart(ini, longQuestion(phrase, l), s1)
+	if err != nil && len(ts) == 0 && !smpMaxConfirmed {
+		// the estimate was too high: search, and start the run with what the search finds
+		max = n.searchMaxQuestion(ini, phrase)
+		l = max
+		ts, err = n.w.smpStart(ini, longQuestion(phrase, l), s1)
+	}
+	if w.dead {
+		return
+	}
+	if err != nil && len(ts) == 0 {
+		g.dist["smp:long-question:limit-unstable"]++ // no run: nothing for C11 to judge
+		return
+	}
+	if l == max {
+		smpMaxConfirmed = true
+	}
+	n.note(ini)
+	n.l.enqueue(ini, ts)
+	n.pump(nil)
+	if w.dead || !res.c.IsEncrypted() {
+		return
+	}
+	ts, _ = n.w.smpSecret(res, s2)
+	n.note(res)
+	n.l.enqueue(res, ts)
+	n.pump(nil)
+	if w.dead {
+		return
+	}
+	olog.ok("C11")
+	ei, er := *n.evOf(ini), *n.evOf(res)
+	desc := fmt.Sprintf("OTRv%d: %s calls StartAuthenticate with a question of %d bytes (%q repeated and cut; the longest question the call accepts has %d bytes) and secret %s, %s answers %s (equal=%v): initiator events %v, responder events %v",
+		version, ini.id, l, phrase, max, sq(s1), res.id, sq(s2), equal, ei, er)
+	if equal {
+		if !hasEv(ei, "smp:6") || !hasEv(er, "smp:6") {
+			olog.viol("C11", "equal-secrets-no-success", desc)
+		}
+	} else {
+		if hasEv(ei, "smp:6") || hasEv(er, "smp:6") {
+			olog.viol("C11", "unequal-secrets-success", desc)
+		}
+		if !hasEv(er, "smp:7") || !hasEv(ei, "smp:7") && !hasEv(ei, "smp:1") {
+			olog.viol("C11", "mismatch-not-reported", desc)
+		}
+	}
+}
+
 func init() {
 	profiles["smp"] = func(seed int64, n int, out *emitter, extra map[string]interface{}) map[string]int {
 		g := &gen{r: rand.New(rand.NewSource(seed)), out: out, dist: map[string]int{}}
@@ -848,6 +1002,12 @@ func init() {
 			} else {
 				g.smpOutOfSequence(w, i/2)
 			}
+		}
+		// appended: questions at the length limit (C11); few of them, their ops lines are long
+		smpMaxQuestion, smpMaxConfirmed = -1, false
+		v0 := g.r.Intn(2)
+		for i := 0; i < (n+10)/20; i++ {
+			g.smpLongQuestion(w, i, v0)
 		}
 		extra["panics"] = panicCount
 		olog.export(extra)
